@@ -99,6 +99,82 @@ func runSolver(ctx context.Context, sp solverSpec, file string, timeoutS, seed i
 	return solveResult{status: st, solver: sp.name, secs: secs, output: text}
 }
 
+// coreConfirm: an unsat answer of z3 is confirmed cheaply by letting z3 name an unsat core (a subset of the asserted
+// hypotheses plus the negated goal) and asking cvc5 to refute that subset on its own. cvc5 proving the subset
+// unsatisfiable is an independent proof of the obligation (any subset of the hypotheses is sound); when z3's answer
+// is wrong the "core" is satisfiable as well and cvc5 does not confirm it. Returns the size of the confirmed core.
+func coreConfirm(script string, seed int) (bool, int) {
+	data, err := os.ReadFile(script)
+	if err != nil {
+		return false, 0
+	}
+	lines := strings.Split(string(data), "\n")
+	var named []string
+	asserts := map[string]string{}
+	n := 0
+	named = append(named, "(set-option :produce-unsat-cores true)")
+	for _, l := range lines {
+		switch {
+		case strings.HasPrefix(l, "(assert ") && strings.HasSuffix(l, ")"):
+			n++
+			nm := fmt.Sprintf("hyp!%d", n)
+			asserts[nm] = l
+			named = append(named, "(assert (! "+l[8:len(l)-1]+" :named "+nm+"))")
+		case strings.HasPrefix(l, "(get-") || strings.HasPrefix(l, "(set-logic"):
+		case strings.HasPrefix(l, "(check-sat"):
+			named = append(named, l, "(get-unsat-core)")
+		default:
+			named = append(named, l)
+		}
+	}
+	if n == 0 {
+		return false, 0
+	}
+	f1 := strings.TrimSuffix(script, ".smt2") + "-named.smt2"
+	os.WriteFile(f1, []byte(strings.Join(named, "\n")), 0o644)
+	r := runSolver(context.Background(), solvers[0], f1, 10, seed)
+	if r.status != "unsat" {
+		return false, 0
+	}
+	in := map[string]bool{}
+	rest := r.output
+	if i := strings.Index(rest, "unsat"); i >= 0 {
+		rest = rest[i+5:]
+	}
+	for _, tok := range strings.FieldsFunc(rest, func(c rune) bool { return c == '(' || c == ')' || c == ' ' || c == '\n' || c == '\t' }) {
+		if _, ok := asserts[tok]; ok {
+			in[tok] = true
+		}
+	}
+	if len(in) == 0 {
+		return false, 0
+	}
+	var core []string
+	core = append(core, solvers[1].pre)
+	for _, l := range lines {
+		if strings.HasPrefix(l, "(get-") || strings.HasPrefix(l, "(set-logic") {
+			continue
+		}
+		if strings.HasPrefix(l, "(assert ") && strings.HasSuffix(l, ")") {
+			keep := false
+			for nm := range in {
+				if asserts[nm] == l {
+					keep = true
+					break
+				}
+			}
+			if !keep {
+				continue
+			}
+		}
+		core = append(core, l)
+	}
+	f2 := strings.TrimSuffix(script, ".smt2") + "-core-" + solvers[1].name + ".smt2"
+	os.WriteFile(f2, []byte(strings.Join(core, "\n")), 0o644)
+	r2 := runSolver(context.Background(), solvers[1], f2, 10, seed)
+	return r2.status == "unsat", len(in)
+}
+
 // Discharge runs the portfolio on one obligation. First definitive answer (unsat/sat) wins. An obligation at a
 // point reached over several merged paths is first tried as a whole with the fast stages only, then path by path,
 // and only then as a whole with the full portfolio.
@@ -316,22 +392,30 @@ func (e *Engine) discharge1(o *Obligation, dir string, idx int, timeoutS int, se
 	}
 	// z3 5.1.0 was caught answering unsat on satisfiable problems over nested sequences ([][2][]byte): on such a
 	// problem a z3 unsat only counts when cvc5 confirms it (every tier)
-	if !coverOnly && win.status == "unsat" && strings.HasPrefix(win.solver, "z3") && strings.Contains(body.Text, "(Seq (Seq") {
-		r := runSolver(context.Background(), solvers[1], write(solvers[1]), timeoutS, seed)
-		all = append(all, r)
-		switch r.status {
-		case "unsat":
-			win = &r
-		case "sat":
-			win = &r
-		default:
-			// no second opinion within the limit: the z3 answer stands (recorded as not confirmed)
-			o.CrossChecked = "not confirmed (cvc5-1.0: " + r.status + ", nested sequences)"
+	// (a sequence of strings is a nested sequence too: String = Seq Char; the third and fourth wrong answers - both z3
+	// versions agreeing on the fourth - were on problems with strings.Split results)
+	nestedSeq := strings.Contains(body.Text, "(Seq (Seq") || strings.Contains(body.Text, "(Seq String)")
+	tConfirm := time.Now()
+	defer func() {
+		if os.Getenv("GOVC_DEBUG_CONFIRM") != "" && time.Since(tConfirm).Seconds() > 3 {
+			fmt.Fprintf(os.Stderr, "confirm %.1fs %s [%s] win=%s\n", time.Since(tConfirm).Seconds(), o.Name, o.CrossChecked, win.solver)
 		}
-	}
+	}()
 	// thorough tier: an unsat answer of one solver family is re-checked by the other one on the full problem; a
 	// contradicting "sat" is reported as a failed obligation (solver disagreement), never silently accepted
-	if crossCheck && !coverOnly && win.status == "unsat" {
+	coreDone := false
+	if crossCheck && !coverOnly && win.status == "unsat" && strings.HasPrefix(win.solver, "z3") {
+		wf := winFile
+		if wf == "" {
+			wf = write(solvers[0])
+		}
+		if ok, k := coreConfirm(wf, seed); ok {
+			coreDone = true
+			o.CrossChecked = fmt.Sprintf("confirmed by %s on the unsat core named by z3 (%d assertions)", solvers[1].name, k)
+		}
+	}
+	confirmed := coreDone
+	if crossCheck && !coverOnly && win.status == "unsat" && !coreDone {
 		other := solvers[1] // cvc5
 		if strings.HasPrefix(win.solver, "cvc5") {
 			other = solvers[0]
@@ -348,6 +432,7 @@ func (e *Engine) discharge1(o *Obligation, dir string, idx int, timeoutS int, se
 		switch r.status {
 		case "unsat":
 			o.CrossChecked = "confirmed by " + other.name
+			confirmed = true
 		case "sat":
 			o.Status = "conflict"
 			o.Solver = win.solver + " vs " + other.name
@@ -358,8 +443,8 @@ func (e *Engine) discharge1(o *Obligation, dir string, idx int, timeoutS int, se
 		default:
 			o.CrossChecked = "not confirmed (" + other.name + ": " + r.status + ")"
 			// z3 5.1.0 answered unsat wrongly three times during development while z3 4.8.12 did not: when cvc5 has
-			// no answer, the older z3 is asked as a third opinion on the same problem
-			if strings.HasPrefix(win.solver, "z3-5") {
+			// no answer on a problem without nested sequences, the older z3 is asked as a third opinion
+			if strings.HasPrefix(win.solver, "z3-5") && !nestedSeq {
 				third := solvers[2]
 				tf := write(third)
 				if winFile != "" {
@@ -377,6 +462,89 @@ func (e *Engine) discharge1(o *Obligation, dir string, idx int, timeoutS int, se
 					o.SMTFile = file
 					return
 				}
+			}
+		}
+	}
+	tryReduced := func() bool {
+	// cvc5 is also asked on reduced problems (every subset of the hypotheses is sound for an unsat answer)
+	ok := false
+	var reduced []string
+	{
+		tsMu.Lock()
+		sh := relevantFactsShallow(c, o.NFacts, o.Goal, o.Gap, o.PC)
+		sh = append(sh, preInstantiate(e.ts, hyps, o.Goal)...)
+		b := e.ts.Script("", e.tc.Datatypes(), sh, o.Goal, nil)
+		tsMu.Unlock()
+		f := strings.TrimSuffix(file, ".smt2") + "-shallow-" + solvers[1].name + ".smt2"
+		os.WriteFile(f, []byte("; obligation: "+o.Name+" (shallow)\n"+solvers[1].pre+preludeVal+b.Text), 0o644)
+		reduced = append(reduced, f)
+	}
+	if len(hyps) > 40 {
+		for k, max := range []int{40, 100, 250} {
+			tsMu.Lock()
+			sub := mepoFilter(hyps, o.Goal, 0.3, max)
+			var txt string
+			if len(sub) > 0 && len(sub) < len(hyps) {
+				txt = e.ts.Script("", e.tc.Datatypes(), sub, o.Goal, nil).Text
+			}
+			tsMu.Unlock()
+			if txt == "" {
+				continue
+			}
+			f := strings.TrimSuffix(file, ".smt2") + fmt.Sprintf("-focus%d-%s.smt2", k, solvers[1].name)
+			os.WriteFile(f, []byte("; obligation: "+o.Name+" (focused hypotheses)\n"+solvers[1].pre+preludeVal+txt), 0o644)
+			reduced = append(reduced, f)
+		}
+	}
+	lim := timeoutS
+	if lim > 10 {
+		lim = 10
+	}
+	for _, f := range reduced {
+		rr := runSolver(context.Background(), solvers[1], f, lim, seed)
+		if rr.status == "unsat" {
+			ok = true
+			o.CrossChecked = "confirmed by " + solvers[1].name + " (reduced problem)"
+			break
+		}
+	}
+		return ok
+	}
+	if !confirmed && !coreDone && !coverOnly && win.status == "unsat" && strings.HasPrefix(win.solver, "z3") && nestedSeq && tryReduced() {
+		confirmed = true
+	}
+	if !confirmed && !coreDone && !coverOnly && win.status == "unsat" && strings.HasPrefix(win.solver, "z3") && nestedSeq {
+		cf := write(solvers[1])
+		if winFile != "" {
+			// the answer came from a reduced problem: cvc5 is asked on the same reduced problem first
+			if data, err := os.ReadFile(winFile); err == nil {
+				cf = strings.TrimSuffix(winFile, ".smt2") + "-" + solvers[1].name + ".smt2"
+				os.WriteFile(cf, []byte(solvers[1].pre+string(data)), 0o644)
+			}
+		}
+		nlim := 3 * timeoutS // cvc5 needs 20-30 s on some of these
+		r := runSolver(context.Background(), solvers[1], cf, nlim, seed)
+		all = append(all, r)
+		switch r.status {
+		case "unsat":
+			o.CrossChecked = "confirmed by " + solvers[1].name
+		case "sat":
+			o.Status = "conflict"
+			o.Solver = win.solver + " vs " + solvers[1].name
+			o.Time = win.secs + r.secs
+			o.Output = fmt.Sprintf("SOLVER DISAGREEMENT: %s answered unsat, %s answered sat on the same problem (nested sequences)\n[%s %.2fs] %s", win.solver, solvers[1].name, solvers[1].name, r.secs, firstLines(r.output, 20))
+			o.SMTFile = file
+			return
+		default:
+			// no second opinion within the limit: the z3 answer stands (recorded as not confirmed)
+			o.CrossChecked = "not confirmed (cvc5-1.0: " + r.status + ", nested sequences)"
+			if os.Getenv("GOVC_LAX_NESTED") == "" {
+				o.Status = "unknown"
+				o.Solver = "none"
+				o.Time = win.secs + r.secs
+				o.Output = fmt.Sprintf("z3 answered unsat on a problem with nested sequences and cvc5 gave no answer (%s) - not accepted\n", r.status)
+				o.SMTFile = file
+				return
 			}
 		}
 	}
